@@ -104,7 +104,7 @@ def pieces(data, cuts):
 
 
 class Conn(object):
-    def __init__(self, cid, spec, store):
+    def __init__(self, cid, spec, store, second_ok=False):
         self.cid = cid
         self.spec = spec
         self.ca = (HOST, 50001 + cid)
@@ -116,10 +116,28 @@ class Conn(object):
         self.opened = False
         self.persistent = persistent(spec)
         self.closure = None          # (round, reason)
+        # optionally a SECOND request on the same (persistent) connection that ends the persistence (`Connection: close`),
+        # its head arriving on its own, its body in two later pieces: from the round in which that head is complete the
+        # connection is an ordinary non persistent one again, whose idle period restarts with every byte
+        self.second = bool(spec.get("second")) and second_ok and self.persistent
+        self.second_end = None
+        if self.second:
+            head2 = ("POST /c%d HTTP/1.1\r\nHost: h\r\nConnection: close\r\nContent-Length: 6\r\n\r\n" % cid).encode("ascii")
+            self.parts = [head + body, head2, b"zzz", b"zzz"]
+            self.second_end = len(head) + len(body) + len(head2)
 
     def feed(self):
+        if self.second:
+            if self.next < len(self.parts):
+                self.sock.rx.extend(self.parts[self.next])
+                self.next += 1
+            return
         self.sock.rx.extend(self.parts[self.next % len(self.parts)])
         self.next += 1
+
+    def known_persistent(self):
+        got = self.sock.received
+        return self.persistent and got >= self.head_len and not (self.second and got >= self.second_end)
 
 
 def make_app(conns):
@@ -144,7 +162,7 @@ def run_server(case, tls):
     T = float(case["timeout"])
     unit = T / 8.0
     store = storing.Store(stamp=0.0)
-    conns = [Conn(i, spec, store) for i, spec in enumerate(case["conns"])]
+    conns = [Conn(i, spec, store, second_ok=case["kind"] == "valet") for i, spec in enumerate(case["conns"])]
     kwa = dict(store=store, ha=(HOST, PORT), timeout=T)
     if tls:
         kwa.update(scheme="https", context=dbl.FakeTlsContext())
@@ -208,7 +226,7 @@ def run_server(case, tls):
                 if c.sock.accepted_at is None or c.sock.closed_at is not None:
                     continue
                 acts = sorted(set([c.sock.accepted_at] + [s for s, _, _ in c.sock.log]))
-                pk = c.persistent and c.sock.received >= c.head_len
+                pk = c.known_persistent()
                 known[c.cid] = (acts, pk, c.sock.log[-1][1] if c.sock.log else "accept")
                 if not pk and len(acts) >= 2 and t - acts[-1] < T <= t - acts[-2]:
                     out["critical"] = True
@@ -254,6 +272,8 @@ def run_server(case, tls):
         if c.opened:
             out["classes"].add("conn:HTTP/%s-%s-%s" % (c.spec["ver"], c.spec["hdr"] or "none",
                                                          "persistent" if c.persistent else "transient"))
+            if c.second and c.sock.received >= c.second_end:
+                out["classes"].add("persistent-connection-ended-by-a-close-request")
             if c.sock.sendcap:
                 out["classes"].add("sendcap")
             if any(k == "tx" for _, k, _ in c.sock.log):
@@ -311,6 +331,7 @@ def conn_spec():
         "yields": st.lists(st.sampled_from([0, 0, 0, 0, 3, 10]), min_size=0, max_size=16),
         "clen": st.booleans(),
         "sendcap": st.sampled_from([0, 0, 0, 7, 40]),
+        "second": st.sampled_from([False, False, True]),
     })
 
 
